@@ -6,6 +6,8 @@ import (
 	"go/types"
 	"strings"
 
+	"golang.org/x/tools/go/cfg"
+
 	"siotcheck/kit"
 )
 
@@ -700,12 +702,9 @@ func c15R4(c *kit.Ctx, a *c15Anchors, r4 *kit.Rule) {
 	info := f.Info()
 	desc := dataConst(c, "PointTypeDescription")
 	// the decoded document
-	var doc types.Object
-	if u, ok := ast.Unparen(a.unmarshal.Args[1]).(*ast.UnaryExpr); ok && u.Op == token.AND {
-		doc = kit.ObjOf(info, u.X)
-	}
+	doc := a.doc
 	if doc == nil {
-		c.Fatalf("importer %s: yaml.Unmarshal target is not the address of a local variable", f.Name)
+		c.Fatalf("importer %s: the decoded document is not held in a local variable", f.Name)
 	}
 	var pres *types.Var
 	var strs []*types.Var
@@ -731,6 +730,9 @@ func c15R4(c *kit.Ctx, a *c15Anchors, r4 *kit.Rule) {
 		if u, ok := e.(*ast.UnaryExpr); ok && u.Op == token.AND {
 			e = ast.Unparen(u.X)
 		}
+		if st, ok := e.(*ast.StarExpr); ok {
+			e = ast.Unparen(st.X)
+		}
 		e = ast.Unparen(c16Resolve(f, e))
 		if u, ok := e.(*ast.UnaryExpr); ok && u.Op == token.AND {
 			e = ast.Unparen(u.X)
@@ -748,6 +750,32 @@ func c15R4(c *kit.Ctx, a *c15Anchors, r4 *kit.Rule) {
 		}
 		sl, ok := info.TypeOf(sel).Underlying().(*types.Slice)
 		return ok && c15IsNEC(sl.Elem())
+	}
+
+	// isTopLike: the points expression is rooted at an element of the document's
+	// node slice (whatever the index): then "not the first node" is definite
+	isTopLike := func(e ast.Expr) bool {
+		sel, ok := ast.Unparen(e).(*ast.SelectorExpr)
+		if !ok {
+			return false
+		}
+		x := ast.Unparen(sel.X)
+		if st, ok := x.(*ast.StarExpr); ok {
+			x = ast.Unparen(st.X)
+		}
+		x = ast.Unparen(c16Resolve(f, x))
+		if u, ok := x.(*ast.UnaryExpr); ok && u.Op == token.AND {
+			x = ast.Unparen(u.X)
+		}
+		if ix, ok := x.(*ast.IndexExpr); ok {
+			if s2, ok := ast.Unparen(ix.X).(*ast.SelectorExpr); ok && kit.ObjOf(info, s2.X) == doc {
+				if k, isC := kit.ConstInt(info, ix.Index); isC && k == 0 {
+					return true
+				}
+				return false
+			}
+		}
+		return true
 	}
 
 	// ---- marker sinks: string constant concatenated to a field of a point, anywhere the importer can reach
@@ -841,28 +869,29 @@ func c15R4(c *kit.Ctx, a *c15Anchors, r4 *kit.Rule) {
 				return true
 			}
 			// element of <top>.Points bound to the enclosing range loop
-			var loop *ast.RangeStmt
-			if rs, ok := g.Enclosing(as, func(x ast.Node) bool { _, ok := x.(*ast.RangeStmt); return ok }).(*ast.RangeStmt); ok {
-				loop = rs
-			}
+			loop := c15IndexLoopOf(c, g, as)
 			ix, isIx := ast.Unparen(sel.X).(*ast.IndexExpr)
-			if loop == nil || !isIx || loop.Key == nil || kit.ObjOf(gi, ix.Index) != kit.ObjOf(gi, loop.Key) ||
-				!kit.SameExpr(gi, ast.Unparen(ix.X), ast.Unparen(loop.X)) {
+			if loop == nil || !isIx || loop.key == nil || kit.ObjOf(gi, ix.Index) != loop.key ||
+				!kit.SameExpr(gi, ast.Unparen(ix.X), ast.Unparen(loop.x)) {
 				o.Undecided("%s is not an element of the slice ranged over by the enclosing loop", g.Str(as))
 				return true
 			}
-			if !c15Field(gi, loop.X, "Points", isTop) {
-				o.Violation("%s marks the points of %s, which is not the first node of the imported document", g.Str(as), g.Str(loop.X))
+			if !c15Field(gi, loop.x, "Points", isTop) {
+				if c15Field(gi, loop.x, "Points", func(ast.Expr) bool { return true }) && !isTopLike(loop.x) {
+					o.Violation("%s marks the points of %s, which is not the first node of the imported document", g.Str(as), g.Str(loop.x))
+				} else {
+					o.Undecided("%s: cannot tell which node's points %s are", g.Str(as), g.Str(loop.x))
+				}
 				return true
 			}
 			// unreachable when the element's type is not description
 			elem := func(e ast.Expr) bool {
 				e = ast.Unparen(e)
-				if loop.Value != nil && kit.ObjOf(gi, e) != nil && kit.ObjOf(gi, e) == kit.ObjOf(gi, loop.Value) {
+				if loop.val != nil && kit.ObjOf(gi, e) != nil && kit.ObjOf(gi, e) == loop.val {
 					return true
 				}
 				if jx, ok := e.(*ast.IndexExpr); ok {
-					return kit.ObjOf(gi, jx.Index) == kit.ObjOf(gi, loop.Key) && kit.SameExpr(gi, ast.Unparen(jx.X), ast.Unparen(loop.X))
+					return kit.ObjOf(gi, jx.Index) == loop.key && kit.SameExpr(gi, ast.Unparen(jx.X), ast.Unparen(loop.x))
 				}
 				return false
 			}
@@ -881,7 +910,8 @@ func c15R4(c *kit.Ctx, a *c15Anchors, r4 *kit.Rule) {
 				return []kit.S{s}
 			}
 			gr := c.P.Graph(g)
-			entry := c15BodyEntry(gr, loop)
+			_ = gr
+			entry := loop.entry
 			if entry == nil {
 				o.Undecided("loop body not found in the CFG")
 				return true
@@ -1040,4 +1070,71 @@ func c15R4(c *kit.Ctx, a *c15Anchors, r4 *kit.Rule) {
 	default:
 		oT.OK("Nodes[0].Parent = %s dominates the send", parentParam.Name())
 	}
+}
+
+// c15IndexLoop describes the innermost loop around a node that visits the
+// elements of a slice by index: `for k, v := range X` or `for i := 0; i < len(X); i++`.
+type c15IndexLoop struct {
+	stmt  ast.Stmt
+	x     ast.Expr
+	key   types.Object
+	val   types.Object
+	entry *cfg.Block
+}
+
+func c15IndexLoopOf(c *kit.Ctx, g *kit.Func, n ast.Node) *c15IndexLoop {
+	gi := g.Info()
+	gr := c.P.Graph(g)
+	enc := g.Enclosing(n, func(x ast.Node) bool {
+		switch x.(type) {
+		case *ast.RangeStmt, *ast.ForStmt:
+			return true
+		}
+		return false
+	})
+	switch l := enc.(type) {
+	case *ast.RangeStmt:
+		out := &c15IndexLoop{stmt: l, x: l.X, entry: c15BodyEntry(gr, l)}
+		if l.Key != nil {
+			out.key = kit.ObjOf(gi, l.Key)
+		}
+		if l.Value != nil {
+			out.val = kit.ObjOf(gi, l.Value)
+		}
+		return out
+	case *ast.ForStmt:
+		init, ok := l.Init.(*ast.AssignStmt)
+		if !ok || len(init.Lhs) != 1 || len(init.Rhs) != 1 || l.Cond == nil {
+			return nil
+		}
+		if k, ok := kit.ConstInt(gi, init.Rhs[0]); !ok || k != 0 {
+			return nil
+		}
+		iv := kit.ObjOf(gi, init.Lhs[0])
+		a, b, op, isCmp := kit.CmpAtom(l.Cond)
+		if !isCmp || iv == nil {
+			return nil
+		}
+		if op == token.GTR {
+			a, b, op = b, a, token.LSS
+		}
+		if op != token.LSS || kit.ObjOf(gi, a) != iv {
+			return nil
+		}
+		call, ok := ast.Unparen(b).(*ast.CallExpr)
+		if !ok || len(call.Args) != 1 {
+			return nil
+		}
+		if bi, ok := kit.Callee(gi, call).(*types.Builtin); !ok || bi.Name() != "len" {
+			return nil
+		}
+		out := &c15IndexLoop{stmt: l, x: call.Args[0], key: iv}
+		for _, blk := range gr.G.Blocks {
+			if blk.Live && blk.Kind == cfg.KindForBody && blk.Stmt == ast.Stmt(l) {
+				out.entry = blk
+			}
+		}
+		return out
+	}
+	return nil
 }
